@@ -33,13 +33,21 @@ pub fn pad_iso_year(year: i32) -> alloc::string::String {
 /// `IncrementRounder::<i128>::from_signed_num(x, inc).round(mode)`
 pub fn round_i128(x: i128, inc: u128, mode: RoundingMode) -> Option<i128> {
     let inc = NonZeroU128::new(inc)?;
-    Some(IncrementRounder::<i128>::from_signed_num(x, inc).ok()?.round(mode))
+    Some(
+        IncrementRounder::<i128>::from_signed_num(x, inc)
+            .ok()?
+            .round(mode),
+    )
 }
 
 /// `IncrementRounder::<f64>::from_signed_num(x, inc).round(mode)`
 pub fn round_f64(x: f64, inc: u128, mode: RoundingMode) -> Option<i128> {
     let inc = NonZeroU128::new(inc)?;
-    Some(IncrementRounder::<f64>::from_signed_num(x, inc).ok()?.round(mode))
+    Some(
+        IncrementRounder::<f64>::from_signed_num(x, inc)
+            .ok()?
+            .round(mode),
+    )
 }
 
 #[cfg(feature = "tzdb")]
